@@ -35,6 +35,10 @@ def items(tier):
         out.append({"kind": "e2e", "fn": fn, "sc": "pos", "ec": "pos", "P": 2, "N": 1, "sampler": "identity", "method": "quantile", "support": "nb_points"})
         if fn != "fixed_width_band_ci":
             out.append({"kind": "e2e", "fn": fn, "sc": "neg", "ec": "pos", "P": 1, "N": 2, "sampler": "identity", "method": "quantile", "support": "user"})
+        if fn == "roc_with_ci":
+            # user support points TOGETHER with nb_points (every small value): the call is accepted and the curve well-formed
+            for nbp in ((0, 2, 3) if tier == "quick" else (0, 1, 2, 3, 4, 5)):
+                out.append({"kind": "e2e", "fn": fn, "sc": "pos", "ec": "neg", "P": 2, "N": 1, "sampler": "identity", "method": "quantile", "support": f"user+{nbp}"})
     return out
 
 
@@ -153,9 +157,11 @@ def run_e2e(h, fn, sc, ec, P, N, sampler, method, support):
         kw = {}
         if support == "nb_points":
             kw["nb_points"] = 4
-        elif support == "user":
+        elif support.startswith("user"):
             kw["thresholds"] = h.array(h.reals("ut", 1))
             kw["fnr"] = h.array([h.const("1/2")])
+            if "+" in support:
+                kw["nb_points"] = int(support.split("+")[1])
         curve = f(S, alpha=alpha, config=cfg, **kw)
     finally:
         rc.ROC_CI_EXTRA_POINTS = old
